@@ -5,6 +5,7 @@ Queue._run_policies / Queue.enqueue (recording store), and the property oracle
 on the envelopes passed to store.write."""
 import re, itertools, collections
 import gevent
+from gevent.event import Event
 from email.message import EmailMessage
 
 from vp.core import B, U
@@ -47,6 +48,35 @@ class PrependTag(QueuePolicy):
     """test-only (not in the model): another policy that prepends a header, as slimta.lookup.policy does"""
     def apply(self, envelope):
         envelope.prepend_header('X-Hop-Tag', 'tag by harness')
+
+
+class GatePolicy(QueuePolicy):
+    """test-only: a policy whose apply() yields to the hub - as slimta.policy.spamassassin.SpamAssassin (network I/O) or any
+    user policy may - and is otherwise a no-op.  With a scheduler attached it parks until the harness resumes it."""
+    sched = None
+
+    def apply(self, envelope):
+        if self.sched is not None:
+            self.sched.park()
+
+
+class YieldPolicy(QueuePolicy):
+    """test-only: apply() lets every other runnable greenlet run once (gevent.sleep(0)); otherwise a no-op"""
+    def apply(self, envelope):
+        gevent.sleep(0)
+
+
+class Sched(object):
+    """one greenlet runs at a time: the driver resumes one enqueue greenlet and waits until it parks in a GatePolicy or ends"""
+    def __init__(self):
+        self.changed = Event()
+        self.parked = {}
+
+    def park(self):
+        ev = Event()
+        self.parked[gevent.getcurrent()] = ev
+        self.changed.set()
+        ev.wait()
 
 
 class RecHeaders(EmailMessage):
@@ -142,8 +172,11 @@ RULESETS = [
     [(r'^.*$', '', 0), (r'@', '@', 1), (r'\.', '.', 0), (r'^', 'late-', 0)],
     # 19: identity for the missing-domain addresses, everything else rewritten
     [(r'^[^@]*$', _same, 0), (r'^(.*)@[^@]*$', r'\1@rewritten.example', 0), (r'$', '@default.example', 0)],
+    # 20: a rule whose output still matches it (sub-address tag): applying it twice is visible
+    [(r'^([^@]*)@', r'\1+fwd@', 0)],
 ]
 IDENTITY_RULESETS = [6, 12, 13, 14, 15, 16, 17, 18, 19]
+TAG_RULESET = 20
 RCPT_POOL = ['a@x.com', 'b@x.com', 'c@X.COM', 'd@y.org', 'e@Y.org', 'f@Y.Org', 'nodomain', 'trailing@', '@lead.com', 'two@@z.net',
              'a@b@c.io', '', 'a@x.com', 'ü@x.com', '"quoted@local"@q.net', ' spaced @ s.net', 'A@X.COM', '@', 'x@y@', 'user@sub.x.com']
 _R1 = 'from orig1 by orig; Mon, 01 Jan 2024 00:00:00 +0000'
@@ -185,6 +218,7 @@ EMPTY_HEADER_SETS = list(range(7, 16))
 RECEIVED_HEADER_SETS = [5] + list(range(16, 24))       # an existing Received field: on top (5, 20) / below other fields (the rest)
 KINDS = ['split', 'domain', 'forward', 'date', 'mid', 'received']
 EXTRA_KINDS = ['self', 'keepsplit']
+NOOP_KINDS = ['gate', 'yield']
 TAG = {'split': 0, 'domain': 1, 'forward': 2, 'date': 3, 'mid': 4, 'received': 5, 'self': 6, 'keepsplit': 7}
 
 
@@ -225,6 +259,10 @@ def build_policies(chain):
             out.append(ReturnSelf())
         elif kind == 'prepend':
             out.append(PrependTag())
+        elif kind == 'gate':
+            out.append(GatePolicy())
+        elif kind == 'yield':
+            out.append(YieldPolicy())
         else:
             out.append(KeepSplit())
     return out
@@ -269,6 +307,8 @@ def model_chain(chain):
     for i, (kind, rs) in enumerate(chain):
         if kind == 'forward':
             out.append([2, [i * 100 + j for j in range(len(RULESETS[rs]))]])
+        elif kind in NOOP_KINDS:      # test-only policies that only yield: no-ops for one message
+            continue
         else:
             out.append([TAG[kind]])
     return out
@@ -634,6 +674,340 @@ def run_prepend_chains(ctx, rng):
     ctx.count('received-with-prepending-policy-cases(implementation only)', n)
 
 
+# ------------------------------------------------------------------ several messages through ONE Queue / one list of policy objects
+def envelope_obs(e, orig):
+    """canonical observation of one written envelope (as in run_case); orig: the input envelope's objects and parsed fields"""
+    items = [(k, str(v)) for k, v in e.headers.items()]
+    masked = [(k, v if (k, v) in orig['items'] else '?') for k, v in items]
+    return ((e is orig['env'], e.recipients is orig['rcpts'], e.headers is orig['headers'], e.client is orig['client']),
+            e.sender, tuple(e.recipients), tuple(masked), e.message)
+
+
+def make_input(m):
+    env = build_envelope(m['sender'], m['rcpts'], [tuple(h) for h in m['headers']], m['body'])
+    orig = dict(env=env, rcpts=env.recipients, headers=env.headers, client=env.client, items=[(k, str(v)) for k, v in env.headers.items()])
+    return env, orig
+
+
+def alone(chain, m):
+    """what a NEW Queue with NEW policy objects writes for this message alone"""
+    env, orig = make_input(m)
+    store = RecordingStore()
+    q = Queue(store)
+    for p in build_policies(chain):
+        q.add_policy(p)
+    q.enqueue(env)
+    return [envelope_obs(e, orig) for e in store.written]
+
+
+def shared_objects(envs):
+    """pairs of envelopes (indexes) that are or share an object"""
+    out = []
+    for i, j in itertools.combinations(range(len(envs)), 2):
+        a, b = envs[i], envs[j]
+        if a is b or a.recipients is b.recipients or a.headers is b.headers or a.client is b.client:
+            out.append((i, j))
+    return out
+
+
+def msgs_model_obs(o):
+    """c16_msgs output -> per message (failed, observations as envelope_obs)"""
+    out = []
+    n = 0
+    for failed, nxt, envs in o:
+        obs = [((eid == n, rid == n + 1, hid == n + 2, cid == n + 3), U(snd), tuple(U(r) for r in rc),
+                tuple((U(h[0]), U(h[1])) for h in hs), B(bd)) for (eid, rid, hid, cid, snd, rc, hs, bd) in envs]
+        out.append((failed, obs))
+        n = nxt
+    return out
+
+
+def run_sequence(ctx, chain, msgs, model_out=None):
+    """one Queue, the same policy objects, the messages one after the other.  Oracle: each message's written envelopes are what a
+    new chain writes for it alone; no object shared between any two written envelopes of the whole sequence; nothing written for
+    an earlier message changes while a later one is processed."""
+    case = dict(mode='sequence', chain=[[k, rs] for k, rs in chain], messages=msgs)
+    store = RecordingStore()
+    q = Queue(store)
+    for p in build_policies(chain):
+        q.add_policy(p)
+    per = []
+    all_written = []
+    raws = []
+    for k, m in enumerate(msgs):
+        env, orig = make_input(m)
+        n0 = len(store.written)
+        try:
+            q.enqueue(env)
+        except Exception as ex:
+            fail(ctx, 'c16:policy-raises', case, '%s(%s) escaped Queue.enqueue of message %d of the sequence' % (type(ex).__name__, ex, k))
+            return
+        written = store.written[n0:]
+        per.append([envelope_obs(e, orig) for e in written])
+        all_written.extend(written)
+        raws.extend(raw_snapshot(e) for e in written[:])
+        raws_now = [raw_snapshot(e) for e in all_written]
+        changed = [i for i in range(n0) if raws_now[i] != raws[i]]
+        if changed:
+            fail(ctx, 'c16:shared-mutable-state', case, 'processing message %d changed envelope(s) %r already written for earlier messages: '
+                 'now %r' % (k, changed, [raws_now[i][1] for i in changed[:3]]))
+            raws = raws_now
+    for k, m in enumerate(msgs):
+        want = alone(chain, m)
+        if per[k] != want:
+            fail(ctx, 'c16:policy-state-leaks-between-messages', case,
+                 'message %d of the sequence (recipients %r) was written as %r; a new chain writes for it alone %r' % (
+                     k, m['rcpts'], [(x[2], [h[0] for h in x[3]]) for x in per[k]], [(x[2], [h[0] for h in x[3]]) for x in want]))
+            break
+    sh = shared_objects(all_written)
+    if not sh:
+        base = [raw_snapshot(e) for e in all_written]
+        for i, e in enumerate(all_written):
+            e.recipients.append('mutated@example.com')
+            e.headers['X-Mutated'] = 'yes'
+            e.client['mutated'] = True
+            sh.extend((i, j) for j, o in enumerate(all_written) if j != i and raw_snapshot(o) != base[j])
+            e.recipients.pop()
+            del e.headers['X-Mutated']
+            del e.client['mutated']
+    if sh:
+        fail(ctx, 'c16:shared-mutable-state', case, 'envelopes %r written for the messages of one sequence (index over all of them, in order) '
+             'are or share recipients / headers / client objects' % (sh[:5],))
+    if model_out is not None:
+        mo = msgs_model_obs(model_out)
+        if any(f for f, _ in mo) or [o for _, o in mo] != per:
+            ctx.mismatch('run_messages', case, per, mo)
+    ctx.count('sequence-length:%d' % len(msgs))
+    ctx.evaluated(('sequence', tuple(chain), tuple((m['sender'], tuple(m['rcpts']), tuple(tuple(h) for h in m['headers'])) for m in msgs)),
+                  nontrivial=len(msgs) > 1)
+
+
+SEQ_TAILS = [['forward'], ['received'], ['date', 'mid'], ['forward', 'received'], ['forward', 'forward'], []]
+SEQ_RCPTS = [['a@x.com', 'd@y.org'], ['a@x.com', 'b@x.com', 'd@y.org', 'e@Y.org', 'nodomain'], ['a@x.com', 'a@x.com', 'c@X.COM'], ['d@y.org'],
+             ['postmaster@x.com', 'u1@d1.example', 'u2@d2.example']]
+
+
+def sequence_cases(rng, n_random):
+    """chains with a split policy followed by Forward / header policies (and the reverse), 2-4 messages: the same multi-domain list
+    again and again, different lists, A B A, same recipients with other headers"""
+    chains = []
+    for sk in ['split', 'domain', 'keepsplit']:
+        for tail in SEQ_TAILS:
+            chains.append([sk] + tail)
+        chains.append(['forward', sk])
+        chains.append(['received', sk, 'forward', 'date'])
+    chains.append(['domain', 'split', 'forward'])
+    chains.append(['split', 'domain', 'forward', 'mid'])
+    cases = []
+
+    def msg(i, rcpts, hs=None):
+        return dict(sender='s%d@example.com' % i, rcpts=list(rcpts), headers=[list(h) for h in (HEADER_SETS[1] if hs is None else hs)],
+                    body=b'body of message %d\r\n' % i)
+    for ks in chains:
+        for rsets in ([TAG_RULESET, TAG_RULESET], [5, TAG_RULESET], [rng.choice(IDENTITY_RULESETS), rng.randrange(len(RULESETS))]):
+            it = iter(rsets)
+            chain = [(k, next(it) if k == 'forward' else None) for k in ks]
+            A, Bl = SEQ_RCPTS[0], SEQ_RCPTS[1]
+            patterns = [[A, A], [A, A, A], [Bl, Bl], [A, Bl, A], [Bl, A, Bl, A], [rng.choice(SEQ_RCPTS) for _ in range(rng.randrange(2, 5))]]
+            for pat in patterns:
+                cases.append((chain, [msg(i, r, rng.choice(HEADER_SETS) if rng.random() < 0.3 else None) for i, r in enumerate(pat)]))
+            if 'forward' not in ks:
+                break
+    for _ in range(n_random):
+        L = rng.randrange(1, 6)
+        chain = []
+        for _ in range(L):
+            k = rng.choice(KINDS + EXTRA_KINDS + ['forward', 'domain'])
+            chain.append((k, rng.randrange(len(RULESETS)) if k == 'forward' else None))
+        pool = [gen_rcpts(rng) for _ in range(2)]
+        cases.append((chain, [msg(i, rng.choice(pool), rng.choice(HEADER_SETS)) for i in range(rng.randrange(2, 5))]))
+    return cases
+
+
+def run_sequences(ctx, rng):
+    cases = sequence_cases(rng, 150 if ctx.quick else 3000)
+    jobs = []
+    for chain, msgs in cases:
+        allr = [r for m in msgs for r in m['rcpts']]
+        jobs.append([model_chain(chain), subn_table(chain, allr),
+                     [[m['sender'], list(m['rcpts']), [[h[0], h[1]] for h in m['headers']], m['body']] for m in msgs]])
+    outs = ctx.model.batch('c16_msgs', jobs)
+    for (chain, msgs), o in zip(cases, outs):
+        run_sequence(ctx, chain, msgs, o)
+    ctx.count('state-across-messages-sequences', len(cases))
+
+
+# ------------------------------------------------------------------ concurrent enqueue calls on ONE Queue
+def guarded_enqueue(q, env):
+    """Queue.enqueue in its own greenlet; an exception is a result, not a traceback on stderr"""
+    try:
+        return ('ok', q.enqueue(env))
+    except Exception as ex:
+        return ('raised', ex)
+
+
+def run_schedule(chain, msgs, prefix):
+    """the messages are enqueued by one greenlet each on one Queue; GatePolicy parks; at every point where more than one
+    greenlet can go on, the next choice of `prefix` (then 0) says which.  Returns (per-message result, choices made, store, inputs)"""
+    sched = Sched()
+    store = RecordingStore()
+    q = Queue(store)
+    for p in build_policies(chain):
+        if isinstance(p, GatePolicy):
+            p.sched = sched
+        q.add_policy(p)
+    inputs = [make_input(m) for m in msgs]
+    n = len(msgs)
+    gl = [None] * n
+    done = [False] * n
+    branch = []
+    stuck = False
+    while not all(done):
+        runnable = [i for i in range(n) if not done[i]]
+        if len(runnable) > 1:
+            c = prefix[len(branch)] if len(branch) < len(prefix) else 0
+            c = min(c, len(runnable) - 1)
+            branch.append((c, len(runnable)))
+            i = runnable[c]
+        else:
+            i = runnable[0]
+        sched.changed.clear()
+        if gl[i] is None:
+            gl[i] = gevent.spawn(guarded_enqueue, q, inputs[i][0])
+            gl[i].link(lambda g: sched.changed.set())
+        else:
+            sched.parked.pop(gl[i]).set()
+        if not sched.changed.wait(timeout=5):
+            stuck = True
+            break
+        if gl[i].ready() and gl[i] not in sched.parked:
+            done[i] = True
+    if stuck:
+        gevent.killall([g for g in gl if g is not None], block=True, timeout=1)
+        return None, branch, store, inputs
+    return [g.value for g in gl], branch, store, inputs
+
+
+def judge_concurrent(ctx, chain, msgs, res, store, inputs, want, case):
+    returned = []
+    for k, (tag, val) in enumerate(res):
+        if tag == 'raised':
+            fail(ctx, 'c16:policy-raises', case, '%s(%s) escaped Queue.enqueue of message %d while another enqueue call was in progress' % (
+                type(val).__name__, val, k))
+            continue
+        envs = [e for e, _ in val]
+        returned.extend(envs)
+        got = [envelope_obs(e, inputs[k][1]) for e in envs]
+        if got != want[k]:
+            fail(ctx, 'c16:concurrent-enqueue-mixes-messages', case,
+                 'message %d (sender %r recipients %r): its enqueue call wrote %r; alone it is written as %r' % (
+                     k, msgs[k]['sender'], msgs[k]['rcpts'], [(x[1], x[2], x[4]) for x in got], [(x[1], x[2], x[4]) for x in want[k]]))
+            return
+    if all(t == 'ok' for t, _ in res):
+        if sorted(map(id, returned)) != sorted(map(id, store.written)):
+            fail(ctx, 'c16:enqueue-result-differs-from-written', case, 'the enqueue calls together returned other envelopes than were written')
+        sh = shared_objects(store.written)
+        if sh:
+            fail(ctx, 'c16:shared-mutable-state', case, 'envelopes %r written by concurrent enqueue calls are or share objects' % (sh[:5],))
+        got_r = collections.Counter(r for e in store.written for r in e.recipients)
+        want_r = collections.Counter(r for w in want for x in w for r in x[2])
+        if got_r != want_r:
+            fail(ctx, 'c16:recipient-lost-or-duplicated', case, 'recipients written by the concurrent enqueue calls %r, expected %r' % (
+                sorted(got_r.elements()), sorted(want_r.elements())))
+
+
+CONC_CHAINS = [
+    ['gate'], ['gate', 'split', 'received'], ['split', 'gate', 'received'], ['split', 'received', 'gate'],
+    ['domain', 'gate', 'forward'], ['gate', 'forward', 'domain'], ['forward', 'split', 'gate', 'date'],
+    ['domain', 'gate', 'split', 'gate', 'mid'], ['received', 'gate'], ['forward', 'gate', 'forward', 'split'],
+    ['split', 'gate', 'forward', 'gate'],
+]
+CONC_MSGS = [
+    [['a@x.com', 'b@x.com'], ['d@y.org', 'e@Y.org']],
+    [['a@x.com', 'd@y.org'], ['a@x.com', 'd@y.org']],
+    [['a@x.com'], ['b@x.com', 'd@y.org', 'nodomain']],
+]
+
+
+def conc_msg(i, rcpts):
+    return dict(sender='s%d@example.com' % i, rcpts=list(rcpts), headers=[['Subject', 'message %d' % i]], body=b'body of message %d\r\n' % i)
+
+
+def run_concurrent(ctx, rng):
+    """two enqueue calls in progress at once on one Queue, a yielding policy at the first / a middle / the last position of chains with
+    the split policies and Forward: EVERY interleaving at the gates (capped); three messages: a sample of interleavings, and
+    gevent.sleep(0) policies with gevent's own scheduling.  Oracle per message: what it is written as alone."""
+    cap = 300 if ctx.quick else 5000      # two messages: every chain / message pair below has at most 252 interleavings
+    n_runs = 0
+    capped = 0
+    todo = []
+    for ks in CONC_CHAINS:
+        for rl in CONC_MSGS:
+            todo.append((ks, rl, cap))
+    for ks in CONC_CHAINS[1:7]:
+        todo.append((ks, [['a@x.com', 'b@x.com'], ['d@y.org', 'e@Y.org'], ['a@x.com', 'd@y.org']], 60 if ctx.quick else 2000))
+    jobs = []
+    for ks, rl, _ in todo:
+        chain = [(k, rng.choice([TAG_RULESET, 5, 2]) if k == 'forward' else None) for k in ks]
+        msgs = [conc_msg(i, r) for i, r in enumerate(rl)]
+        jobs.append((chain, msgs))
+    mjobs = [[m['sender'], list(m['rcpts']), [[h[0], h[1]] for h in m['headers']], m['body'], model_chain(chain), subn_table(chain, m['rcpts'])]
+             for chain, msgs in jobs for m in msgs]
+    mouts = iter(ctx.model.batch('c16_run', mjobs))
+    for (chain, msgs), (_, _, c) in zip(jobs, todo):
+        want = [alone(chain, m) for m in msgs]
+        for m, w in zip(msgs, want):
+            failed, mo = model_obs(next(mouts))
+            if failed or mo != w:
+                ctx.mismatch('run_policies', dict(chain=[[k, rs] for k, rs in chain], sender=m['sender'], rcpts=m['rcpts'], headers=m['headers'],
+                                                  body=m['body'], mode='enqueue'), w, dict(failed=failed, envelopes=mo))
+        stack = [[]]
+        seen = 0
+        while stack and seen < c:
+            prefix = stack.pop()
+            res, branch, store, inputs = run_schedule(chain, msgs, prefix)
+            seen += 1
+            n_runs += 1
+            choices = [b[0] for b in branch]
+            case = dict(mode='concurrent', chain=[[k, rs] for k, rs in chain], messages=msgs, schedule=choices)
+            if res is None:
+                ctx.note('concurrent stream: schedule %r of chain %r did not come to an end within the guard time' % (choices, chain))
+                ctx.count('concurrent-schedule-stuck')
+            else:
+                judge_concurrent(ctx, chain, msgs, res, store, inputs, want, case)
+            ctx.evaluated(('concurrent', tuple(chain), tuple(tuple(m['rcpts']) for m in msgs), tuple(choices)), nontrivial=len(branch) > 0)
+            for pos in range(len(prefix), len(branch)):
+                for alt in range(branch[pos][0] + 1, branch[pos][1]):
+                    stack.append(choices[:pos] + [alt])
+        if stack:
+            capped += 1
+        ctx.count('concurrent-messages:%d' % len(msgs))
+    # gevent's own scheduling: policies that sleep(0), three enqueue greenlets started together
+    for ks in [['yield', 'split', 'received'], ['split', 'yield', 'forward'], ['domain', 'yield', 'received', 'yield'], ['split', 'forward', 'yield']]:
+        chain = [(k, TAG_RULESET if k == 'forward' else None) for k in ks]
+        msgs = [conc_msg(i, r) for i, r in enumerate([['a@x.com', 'b@x.com'], ['d@y.org', 'e@Y.org', 'f@Y.Org'], ['a@x.com', 'd@y.org']])]
+        want = [alone(chain, m) for m in msgs]
+        store = RecordingStore()
+        q = Queue(store)
+        for p in build_policies(chain):
+            q.add_policy(p)
+        inputs = [make_input(m) for m in msgs]
+        gl = [gevent.spawn(guarded_enqueue, q, env) for env, _ in inputs]
+        gevent.joinall(gl, timeout=5)
+        res = [g.value for g in gl]
+        case = dict(mode='concurrent', chain=[[k, rs] for k, rs in chain], messages=msgs, schedule='gevent')
+        if any(not g.ready() for g in gl):
+            gevent.killall(gl, block=True, timeout=1)
+            ctx.count('concurrent-schedule-stuck')
+        else:
+            judge_concurrent(ctx, chain, msgs, res, store, inputs, want, case)
+        ctx.evaluated(('concurrent-gevent', tuple(chain)), nontrivial=True)
+        n_runs += 1
+    ctx.count('concurrent-enqueue-runs', n_runs)
+    ctx.count('concurrent-cases-with-all-interleavings', len(todo) - capped)
+    ctx.count('concurrent-cases-capped', capped)
+
+
 def probe_generator(ctx):
     class GenSplit(QueuePolicy):
         def apply(self, envelope):
@@ -700,6 +1074,8 @@ def run(ctx):
         cases.append((chain, rng.choice(['sender@example.com', '', 'S@Example.COM']), gen_rcpts(rng), rng.choice(HEADER_SETS), b'body\r\n', mode))
     run_cases(ctx, cases)
     run_prepend_chains(ctx, rng)
+    run_sequences(ctx, rng)
+    run_concurrent(ctx, rng)
     probe_generator(ctx)
     ctx.extra['exhaustive'] = True
     ctx.extra['exhaustive_bound'] = ('all 1555 chains of length <= 4 over the six built-in policies (each with %d generated recipient lists / header sets); '
